@@ -914,6 +914,12 @@ impl<'de> serde::de::Visitor<'de> for AnnotationDataSetVisitor<'_> {
                 }
                 "@include" => {
                     let filename: String = map.next_value()?;
+                    if filename == "-" {
+                        // "-" designates standard input when opening files: a document must not make the loader wait for it
+                        return Err(<A::Error as serde::de::Error>::custom(format!(
+                            "@include in AnnotationDataSet can not refer to standard input (-)"
+                        )));
+                    }
                     if self.depth >= MAX_INCLUDE_DEPTH {
                         return Err(<A::Error as serde::de::Error>::custom(format!(
                             "@include is nested too deeply in AnnotationDataSet (cyclic include of {filename}?)"
